@@ -360,7 +360,7 @@ def _par(draw):
             p["yAPB"] = draw(st.floats(0.01, 0.5))
         elif k == "ySFM":
             p["ySFM"] = draw(st.floats(0.02, 0.3))
-            p["ySFP"] = p["ySFM"] * draw(st.floats(0.05, 0.95))
+            p["ySFP"] = p["ySFM"] * draw(st.one_of(st.floats(0.05, 0.95), st.floats(1.0, 2.5)))      # also a stacking-fault energy of the precipitate at or above that of the matrix
         else:
             p["gamma"] = draw(st.floats(0.01, 1.0))
         if draw(st.integers(0, 2)) == 2:
